@@ -46,7 +46,7 @@ class Frame:
 
 
 class State:
-    __slots__ = ('frames', 'heap', 'pc', 'extras', 'flags', 'dirty', 'status', 'result', 'inexact', 'nondet', 'conc')
+    __slots__ = ('frames', 'heap', 'pc', 'extras', 'flags', 'dirty', 'status', 'result', 'inexact', 'nondet', 'conc', 'lastj')
 
     def fork(self):
         s = State()
@@ -61,6 +61,7 @@ class State:
         s.inexact = self.inexact
         s.nondet = self.nondet
         s.conc = self.conc
+        s.lastj = self.lastj
         return s
 
 
@@ -98,6 +99,8 @@ class Executor:
         self.deadline = None
         self._init_done = False
         self.entered = set()
+        self.ite_merging = True
+        self._returned = False
 
     # ==================================================================
     # heap helpers
@@ -502,6 +505,7 @@ class Executor:
             v = self.store.vars[vs.bit_length() - 1]
             pt = self.mdd.and_byte(st.pc, v.order, m)
             pf = self.mdd.and_byte(st.pc, v.order, FULL & ~m)
+            st.lastj = v.order
             return pt, st.extras, pf, st.extras
         ncond = self.store.bnot(cond)
         rt = self.solver.check(st.pc, st.extras, (cond,))
@@ -584,9 +588,10 @@ class Executor:
 
     # ==================================================================
     # canonical form for merging
-    def canon_values(self, st, values):
+    def canon_values(self, st, values, loose=False, want_queue=False):
         """canonical (allocation-order independent) form of a list of values and
-        of the heap reachable from them"""
+        of the heap reachable from them. loose: symbolic scalars are replaced by a
+        wildcard (used to find states that differ only in symbolic values)."""
         ren = {}
         queue = []
         limit = self.static_limit
@@ -605,6 +610,8 @@ class Executor:
 
         def cv(v):
             if v.__class__ is not tuple:
+                if loose and v.__class__ is Term:
+                    return ('?', v.w)
                 return v
             if not v:
                 return v
@@ -613,7 +620,13 @@ class Executor:
                 return ('P', cid(v[1]), v[2])
             if tag == 'S':
                 return ('S', cid(v[1]), v[2], v[3], v[4], v[5])
-            if tag == 'Z' or tag == 'D':
+            if tag == 'Z':
+                if loose:
+                    return ('Z', tuple([('?', 8) if x.__class__ is Term else x for x in v[1]]))
+                return v
+            if tag == 'D':
+                if loose and v[1].__class__ is Term:
+                    return ('D', ('?', 64))
                 return v
             if tag == 'T' or tag == 'A' or tag == 'U':
                 return (tag, tuple([cv(x) for x in v[1]]))
@@ -638,12 +651,14 @@ class Executor:
         while i < len(queue):
             out.append(cv(heap[queue[i]]))
             i += 1
+        if want_queue:
+            return tuple(out), queue
         return tuple(out)
 
     def canon_value(self, st, v):
         return self.canon_values(st, [v])
 
-    def state_key(self, st):
+    def _roots(self, st):
         shape = []
         values = []
         for fr in st.frames:
@@ -656,7 +671,121 @@ class Executor:
                 for callee, args in fr.defers:
                     values.append(callee)
                     values.extend(args)
-        return (tuple(shape), self.canon_values(st, values), st.extras, st.flags, st.inexact, st.nondet)
+        return tuple(shape), values
+
+    def state_key(self, st):
+        shape, values = self._roots(st)
+        return (shape, self.canon_values(st, values), st.extras, st.flags, st.inexact, st.nondet)
+
+    def loose_key(self, st):
+        shape, values = self._roots(st)
+        cv, queue = self.canon_values(st, values, loose=True, want_queue=True)
+        return (shape, cv, st.extras, st.flags, st.inexact, st.nondet), queue
+
+    # ------------------------------------------------------------------
+    def _project(self, node, j):
+        """over-approximate set of values byte j takes in the set `node`"""
+        seen = set()
+        acc = 0
+        stack = [node]
+        while stack:
+            n = stack.pop()
+            if n is TRUE or n.idx < j:
+                return FULL       # a path on which byte j is unconstrained
+            if n.id in seen:
+                continue
+            seen.add(n.id)
+            if n.idx == j:
+                for m, c in n.edges:
+                    acc |= m
+            else:
+                for m, c in n.edges:
+                    stack.append(c)
+        return acc
+
+    def _merge_cond(self, e, st):
+        """if the path conditions of e and st are U /\ (byte j in M) and U /\ (byte j not in M)
+        for one byte j, return (j, M) else None"""
+        pa, pb = e.pc, st.pc
+        if pa is TRUE or pb is TRUE or pa is None or pb is None:
+            return None
+        U = None
+        for j in (st.lastj, e.lastj):
+            if j is None:
+                continue
+            ma = self._project(pa, j)
+            if ma == FULL or ma == 0:
+                continue
+            if U is None:
+                U = self.mdd.or_(pa, pb)
+            if self.mdd.and_byte(U, j, ma) is pa and self.mdd.and_byte(U, j, FULL & ~ma) is pb:
+                return j, ma
+            if st.lastj == e.lastj:
+                break
+        return None
+
+    def _merge_value(self, a, b, phi):
+        if a is b:
+            return a
+        ca = a.__class__
+        if ca is not tuple:
+            if ca is Term or b.__class__ is Term:
+                w = a.w if ca is Term else b.w
+                return self.store.ite(phi, a, b, w)
+            return a   # equal concrete scalars (guaranteed by the loose key)
+        tag = a[0]
+        if tag in ('T', 'A', 'U'):
+            return (tag, tuple([self._merge_value(x, y, phi) for x, y in zip(a[1], b[1])]))
+        if tag == 'Z':
+            return ('Z', tuple([self._merge_value(x, y, phi) for x, y in zip(a[1], b[1])]))
+        if tag == 'D':
+            return ('D', self._merge_value(a[1], b[1], phi))
+        if tag == 'I':
+            return ('I', a[1], self._merge_value(a[2], b[2], phi))
+        if tag == 'F':
+            return ('F', a[1], tuple([self._merge_value(x, y, phi) for x, y in zip(a[2], b[2])]))
+        if tag == 'MAP':
+            return ('MAP', tuple([(self._merge_value(k1, k2, phi), self._merge_value(x, y, phi)) for (k1, x), (k2, y) in zip(a[1], b[1])]))
+        if tag == 'POOL':
+            return ('POOL', tuple([self._merge_value(x, y, phi) for x, y in zip(a[1], b[1])]))
+        if tag == 'maprange':
+            return (tag, tuple([(self._merge_value(k1, k2, phi), self._merge_value(x, y, phi)) for (k1, x), (k2, y) in zip(a[1], b[1])]), a[2])
+        return a   # pointers / slices / maps: identical up to renaming
+
+    def _ite_merge(self, e, qe, st, qs):
+        """merge st into e (same loose key): differing symbolic values become ite terms"""
+        mc = self._merge_cond(e, st)
+        if mc is None:
+            return False
+        order, ma = mc
+        bv = None
+        for v in self.store.vars:
+            if v.kind == 'byte' and v.order == order:
+                bv = v
+                break
+        cells = tuple(bool((ma >> i) & 1) for i in range(256))
+        tid = self.store.consttab(cells, 0)
+        self._keep_tabs.append(cells)
+        var_t = self.store._mk('var', 8, (bv.idx,), bv.bit)
+        phi = self.store.mk('select', 0, tid, var_t)
+        for fe, fs in zip(e.frames, st.frames):
+            env = fe.env
+            senv = fs.env
+            for k in env:
+                a = env[k]
+                b = senv[k]
+                if a is not b:
+                    env[k] = self._merge_value(a, b, phi)
+            if fe.defers:
+                fe.defers = [(ca, tuple(self._merge_value(x, y, phi) for x, y in zip(aa, ab)))
+                             for (ca, aa), (cb, ab) in zip(fe.defers, fs.defers)]
+        for oe, os_ in zip(qe, qs):
+            a = e.heap[oe]
+            b = st.heap[os_]
+            if a is not b:
+                e.heap[oe] = self._merge_value(a, b, phi)
+        e.pc = self.mdd.or_(e.pc, st.pc)
+        return True
 
     # ==================================================================
     # running
@@ -664,6 +793,8 @@ class Executor:
         """explore from st until all paths are terminal; returns list of terminal states"""
         self.terminals = {}
         self.pending = {}
+        self.loose = {}
+        self._keep_tabs = []
         self.heapq = []
         self.seq = 0
         self.pending_forks = []
@@ -685,6 +816,35 @@ class Executor:
             e.pc = self.mdd.or_(e.pc, st.pc)
             self.stats['merges'] += 1
             return
+        if self.ite_merging:
+            lkey, queue = self.loose_key(st)
+            ents = self.loose.get(lkey)
+            if ents is None:
+                ents = self.loose[lkey] = []
+            merged = True
+            absorbed = False
+            while merged:
+                merged = False
+                for i, (okey, ost, oqueue) in enumerate(ents):
+                    if ost is st or self.pending.get(okey) is not ost:
+                        continue
+                    if self._ite_merge(ost, oqueue, st, queue):
+                        # ost absorbed st: re-key it and try to merge it further
+                        del self.pending[okey]
+                        del ents[i]
+                        self.stats['ite_merges'] = self.stats.get('ite_merges', 0) + 1
+                        st, queue = ost, oqueue
+                        key = self.state_key(st)
+                        absorbed = True
+                        merged = True
+                        break
+            ents[:] = [en for en in ents if self.pending.get(en[0]) is en[1]][-5:]
+            e2 = self.pending.get(key)
+            if e2 is not None and e2 is not st:
+                e2.pc = self.mdd.or_(e2.pc, st.pc)
+                self.stats['merges'] += 1
+                return
+            ents.append((key, st, queue))
         self.pending[key] = st
         fr = st.frames[-1]
         pr = (st.pc.idx, -len(st.frames), fr.block.rpo)
@@ -718,9 +878,11 @@ class Executor:
                 return
             fr = st.frames[-1]
             b = fr.block
-            if fr.idx == 0 and b.ismerge and not first:
+            if not first and ((fr.idx == 0 and b.ismerge) or self._returned):
+                self._returned = False
                 self._enqueue(st)
                 return
+            self._returned = False
             first = False
             self.stats['blocks'] += 1
             instrs = b.instrs
@@ -851,7 +1013,7 @@ class Executor:
             raise Unsupported('unop ' + tok)
         if op == 'IndexAddr':
             x = val(st, fr, ins['x'])
-            i = val(st, fr, ins['index'])
+            i = self.widen_index(val(st, fr, ins['index']), ins.get('it'))
             t = self.prog.types[ins['xt']]
             if t['kind'] == 'slice':
                 if x[1] is None and False:
@@ -949,7 +1111,7 @@ class Executor:
             return None
         if op == 'Index':
             x = val(st, fr, ins['x'])
-            i = val(st, fr, ins['index'])
+            i = self.widen_index(val(st, fr, ins['index']), ins.get('it'))
             t = self.prog.types[ins['xt']]
             cells = x[1]
             if i.__class__ is Term:
@@ -1027,6 +1189,19 @@ class Executor:
         raise Unsupported('instruction ' + op)
 
     # ------------------------------------------------------------------
+    def widen_index(self, i, it):
+        if it is None:
+            return i
+        t = self.prog.types[it]
+        w = t.get('bits', 64)
+        if w == 64:
+            return i
+        if i.__class__ is int:
+            return (sgn(i, w) & mask(64)) if t.get('signed') else i
+        if t.get('signed'):
+            return self.store.mk('sext', 64, i, w)
+        return self.store.mk('zext', 64, i)
+
     def resolve_sel(self, r, tid):
         t = self.prog.types[tid]
         if r[0] == 'SEL':
@@ -1036,6 +1211,13 @@ class Executor:
             return self.store.mk('select', w, r[1], r[2])
         cells, idx = r[1], r[2]
         k = t['kind']
+        if k == 'struct':
+            # array of structs indexed symbolically: one selection per field
+            fields = []
+            for fi, f in enumerate(t['fields']):
+                sub = tuple(c[1][fi] for c in cells)
+                fields.append(self.resolve_sel(self.select_cells(sub, idx), f['type']))
+            return ('T', tuple(fields))
         if k not in ('int', 'bool'):
             raise Unsupported('symbolic index into non-scalar array')
         w = 0 if k == 'bool' else t['bits']
@@ -1342,6 +1524,8 @@ class Executor:
         name, rerun = fr.retname
         if name is not None:
             caller.env[name] = r
+        if fr.fn.nreturns > 1:
+            self._returned = True   # returning from a function with several exits is a merge point
         return True
 
     # ------------------------------------------------------------------
@@ -1474,6 +1658,7 @@ class Executor:
         st.inexact = False
         st.nondet = ()
         st.conc = ()
+        st.lastj = None
         for g, info in sorted(self.prog.globals.items()):
             z = self.prog.zero(info['type'])
             if info.get('foreign') and self.prog.types[info['type']]['kind'] == 'iface':
@@ -1546,6 +1731,7 @@ class Executor:
         st.inexact = False
         st.nondet = ()
         st.conc = ()
+        st.lastj = None
         return st
 
     def freeze(self):
